@@ -159,6 +159,41 @@ func parseDir(repo, dir, name string) {
 	pkgs[name] = p
 }
 
+// The networks treat a few calls as opaque and ASSUME they return.  For the document fetch that
+// assumption rests on the HTTP client's overall timeout; it is checked here, on the syntax tree: the
+// function must build an http.Client literal with a Timeout field (a transport-level header timeout
+// does not bound the body read).
+func opaqueAssumptions() []string {
+	var out []string
+	fd := pkgs["dosnode"].funcs["dataFetch"]
+	if fd == nil {
+		return []string{"dosnode.dataFetch not found: the assumption that the document fetch returns cannot be checked"}
+	}
+	bounded := false
+	ast.Inspect(fd.Body, func(x ast.Node) bool {
+		cl, ok := x.(*ast.CompositeLit)
+		if !ok {
+			return true
+		}
+		if se, ok := cl.Type.(*ast.SelectorExpr); ok && se.Sel.Name == "Client" {
+			if id, ok := se.X.(*ast.Ident); ok && id.Name == "http" {
+				for _, el := range cl.Elts {
+					if kv, ok := el.(*ast.KeyValueExpr); ok {
+						if k, ok := kv.Key.(*ast.Ident); ok && k.Name == "Timeout" {
+							bounded = true
+						}
+					}
+				}
+			}
+		}
+		return true
+	})
+	if !bounded {
+		out = append(out, pos(fd)+": dataFetch builds no http.Client with an overall Timeout: the document fetch is not bounded, the assumption that this opaque call returns does not hold")
+	}
+	return out
+}
+
 func pos(n ast.Node) string {
 	p := fset.Position(n.Pos())
 	return fmt.Sprintf("%s:%d", filepath.Base(p.Filename), p.Line)
@@ -1762,6 +1797,9 @@ func main() {
 					rec(append(append([]int{}, script...), i), fmt.Sprintf("%s_%d", tag, i))
 				}
 				return
+			}
+			if strings.HasPrefix(net.name, "net_query") {
+				net.failed = append(net.failed, opaqueAssumptions()...)
 			}
 			emit(&w, net)
 			names = append(names, net.name)
